@@ -1,4 +1,5 @@
 """C02 - every aggregate equals the sum of its units; levels agree with each other."""
+from harness import extract as X
 from harness.props import _api_common as K
 from harness.props import c01
 
@@ -14,6 +15,10 @@ ASSUMPTIONS = [
     "PostalFixedWidth: two-letter postal codes, so pandas' tuple order and get_dummies' joined-string order agree",
 ]
 RULE = c01.RULE + "; aggregate tables are recomputed from the implementation's unit table by the Lean model and compared exactly"
+
+
+def extract(run):
+    return X.generate("C02")
 
 
 def explore(run, driver, budget):
